@@ -9,7 +9,7 @@ export RUSTFLAGS="--cfg walrus_verif"
 export CARGO_TARGET_DIR=/verif/target/$cfg
 case "$cfg" in
   *-small)
-    export WALRUS_VERIF_BLOCK_SIZE=2048 WALRUS_VERIF_BLOCKS_PER_FILE=4 WALRUS_VERIF_MAX_ALLOC=8192 WALRUS_VERIF_MAX_BATCH_BYTES=81920 ;;
+    export WALRUS_VERIF_BLOCK_SIZE=2048 WALRUS_VERIF_BLOCKS_PER_FILE=4 WALRUS_VERIF_MAX_ALLOC=8192 WALRUS_VERIF_MAX_BATCH_BYTES=1048576 ;;
   *-real)
     unset WALRUS_VERIF_BLOCK_SIZE WALRUS_VERIF_BLOCKS_PER_FILE WALRUS_VERIF_MAX_ALLOC WALRUS_VERIF_MAX_BATCH_BYTES ;;
   *) echo "unknown config $cfg" >&2; exit 2 ;;
